@@ -78,6 +78,9 @@ pub struct LoopSim {
     srt_port: u16,
     config: srtla_send::DynamicConfig,
     taps: Arc<std::sync::Mutex<std::collections::HashMap<std::net::IpAddr, socket2::Socket>>>,
+    /// subscribers that never read (their queues fill up at once): the loop's 1 Hz stats publish must not wait
+    stalled_subs: Vec<tokio::sync::mpsc::Receiver<String>>,
+    side: Option<tokio::task::JoinHandle<()>>,
     work: String,
     n: usize,
     profile: String,
@@ -144,6 +147,8 @@ impl LoopSim {
         Self {
             rt, task: None, receiver, rport, client, srt_port: 0, config: srtla_send::DynamicConfig::new(),
             taps: Default::default(),
+            stalled_subs: Vec::new(),
+            side: None,
             work: std::env::temp_dir().to_string_lossy().to_string(), n: 2, profile: "steady".into(),
             path: vec![], rtt: vec![], group: None, registered: vec![], pending: VecDeque::new(), ack_buf: vec![],
             rx_seqs: Default::default(), rx_count: 0, last_reply_at: vec![], cur_addr: vec![],
@@ -162,6 +167,10 @@ impl LoopSim {
     }
 
     fn stop(&mut self) {
+        if let Some(t) = self.side.take() {
+            t.abort();
+            let _ = self.rt.block_on(t);
+        }
         if let Some(t) = self.task.take() {
             t.abort();
             let _ = self.rt.block_on(t);
@@ -434,10 +443,41 @@ impl Engine for LoopSim {
                     let (path, rport, port, config) = (self.ips_path(), self.rport, self.srt_port, self.config.clone());
                     self.taps.lock().unwrap().clear();
                     let binder: Arc<dyn UplinkBinder> = Arc::new(TapBinder { taps: self.taps.clone() });
+                    let hub = srtla_send::subscriptions::SubscriptionHub::new();
+                    self.stalled_subs.clear();
+                    if self.profile == "stalledsub" {
+                        // two connected control clients that never read: queues of 1 and 2 lines, on `stats` (published
+                        // by the loop every second) -- they are full after the first passes and stay open
+                        for cap in [1usize, 2] {
+                            let (tx, rx) = tokio::sync::mpsc::channel::<String>(cap);
+                            let h = hub.clone();
+                            self.rt.block_on(async move { h.subscribe("stats", tx).await });
+                            self.stalled_subs.push(rx);
+                        }
+                        for cap in [1usize, 3] {
+                            let (tx, rx) = tokio::sync::mpsc::channel::<String>(cap);
+                            let h = hub.clone();
+                            self.rt.block_on(async move { h.subscribe("priority.window", tx).await });
+                            self.stalled_subs.push(rx);
+                        }
+                        // the sidecar's role: edge events on another topic, published from another task
+                        let h = hub.clone();
+                        self.side = Some(self.rt.spawn(async move {
+                            let mut k = 0u64;
+                            // not before the session is up: the observer's obligations start there
+                            tokio::time::sleep(std::time::Duration::from_millis(6100)).await;
+                            loop {
+                                k += 1;
+                                h.publish("priority.window", json!({"open": k % 2 == 0, "k": k})).await;
+                                tokio::time::sleep(std::time::Duration::from_millis(270)).await;
+                            }
+                        }));
+                        self.bump("stalled_subscribers");
+                    }
                     let task = self.rt.spawn(async move {
                         srtla_send::sender::run_sender_with_config(
                             port, "127.0.0.1", rport, &path, config, srtla_send::stats::SharedStats::new(),
-                            CriticalWindow::new(), srtla_send::subscriptions::SubscriptionHub::new(), binder,
+                            CriticalWindow::new(), hub, binder,
                         )
                         .await
                     });
